@@ -20,6 +20,7 @@ RULE = ("per proof-producing backend configuration (snarkjs; zkinterface with bn
         "depth >= 2 with a repeated variable and a scalar outside [0,p), or a long combination (sums of 12-60 terms over up to 48 "
         "variables combined so that some wires cancel exactly and others recur); distinct by case digest. libsnark's native "
         "class is not available offline and is NOT covered.")
+RULE += " Extensions (seeded rounds 10-15): boolean scalars (content and text as for 1 / 0), long combinations scaled repeatedly and built without looking at intermediate objects, requests for another field after values exist (refused means nothing changed)."
 
 CONFIGS = ["snarkjs", "zkinterface", "zkifbellman", "zkifbulletproofs", "qaptools"]
 
